@@ -62,12 +62,13 @@ WellFormedBad(k) ==
         LET nd == Nodes(k)[j] IN
           ~ ( /\ nd.first = nd.snapi + 1
               /\ nd.snapi <= nd.commit
-              /\ nd.commit <= nd.last
+              \* while a Ready is outstanding (held) raft has stepped further than what the application persisted
+              /\ (nd.held \/ nd.commit <= nd.last)
               /\ nd.applied <= nd.commit
               /\ Len(nd.log) = nd.last - nd.first + 1
               /\ \A x \in 1..Len(nd.log) : nd.log[x].i = nd.first + x - 1
               /\ \A x \in 1..(Len(nd.log) - 1) : nd.log[x].t <= nd.log[x + 1].t
-              /\ (nd.up => nd.hs.term = nd.term /\ nd.hs.vote = nd.vote /\ nd.hs.commit = nd.commit) )}}
+              /\ (nd.up /\ ~nd.held => nd.hs.term = nd.term /\ nd.hs.vote = nd.vote /\ nd.hs.commit = nd.commit) )}}
 
 EqEnt(na, nb, idx) == LET x == na.log[idx - na.first + 1]
                           y == nb.log[idx - nb.first + 1]
@@ -143,10 +144,12 @@ HardStateBad(k) ==
             IN ~ ( /\ q.hs.term >= p.hs.term
                    /\ (q.hs.term = p.hs.term /\ p.hs.vote # 0 => q.hs.vote = p.hs.vote)
                    /\ (q.hs.commit >= p.hs.commit \/ (crashed /\ q.hs.commit >= p.hss.commit))
-                   \* the state the node acts upon (volatile when up, persisted when down)
-                   /\ q.term >= p.term
-                   /\ (q.term = p.term /\ p.vote # 0 => q.vote = p.vote)
-                   /\ (q.commit >= p.commit \/ (crashed /\ q.commit >= p.hss.commit)) )}}
+                   \* the state the node acts upon (volatile when up, persisted when down); what a node stepped to while
+                   \* its Ready was outstanding (held) was neither persisted nor sent, so a crash may take it back
+                   /\ \/ crashed /\ p.held
+                      \/ /\ q.term >= p.term
+                         /\ (q.term = p.term /\ p.vote # 0 => q.vote = p.vote)
+                         /\ (q.commit >= p.commit \/ (crashed /\ q.commit >= p.hss.commit)) )}}
 
 (* ----------------------------- behaviour ------------------------------ *)
 
